@@ -4,8 +4,11 @@
 (* warning).                                                                                *)
 (* A document is a sequence of items                                                        *)
 (*   <<"h", title, level>>   heading (title = sequence of code points)                      *)
-(*   <<"t", name>>           '(name)=' block target (name = sequence of code points)        *)
-(* followed by a fixed block of links <<name, form>> (form "text" | "empty").               *)
+(*   <<"t", name, follow>>   '(name)=' block target (name = sequence of code points);        *)
+(*                           follow = "next": the next item (or a plain paragraph) follows,  *)
+(*                           "quote": a block quote holding a titled admonition follows      *)
+(* followed by a fixed block of links <<name, form>>                                        *)
+(* (form "text" | "empty" | "auto" = <project:#name>).                                      *)
 (* M: render phase, one action per item (Heading: generate_heading_target with              *)
 (* compute_unique_slug over the insertion-ordered _heading_slugs; Target:                   *)
 (* note_explicit_target), then the ResolveAnchorIds transform, one action per link.         *)
@@ -122,7 +125,8 @@ NoDupTargets == \A i, j \in 1..Len(items) : (i # j /\ items[i][1] = "t" /\ items
 (* for an empty link text: the item whose title fills it (a target directly followed by a   *)
 (* heading takes that heading's title), 0 = none ("#name" is shown)                          *)
 TitleOf(r) == IF r[1] = "slug" THEN r[2]
-              ELSE IF r[1] = "explicit" /\ r[2] < Len(items) /\ items[r[2] + 1][1] = "h" THEN r[2] + 1 ELSE 0
+              ELSE IF r[1] = "explicit" /\ items[r[2]][3] = "next" /\ r[2] < Len(items) /\ items[r[2] + 1][1] = "h"
+                   THEN r[2] + 1 ELSE 0      \* a title nested deeper inside what follows is not the target's title
 ResolveRule == \A l \in 1..Len(res) :
   LET n == LinkSeq[l][1] IN
   IF TargetIdx(n) # {} THEN res[l][1] = "explicit" /\ res[l][2] \in TargetIdx(n)
